@@ -773,6 +773,7 @@ class DirectRuntime:
     def __enter__(self):
         global _RT
         self._prev, _RT = _RT, self
+        reset_library_state()
         self._garbage = own_garbage().__enter__()
         return self
 
@@ -1059,6 +1060,8 @@ class Seams:
         missing = object()
         old = obj.__dict__.get(name, missing)
         self.saved.append((obj, name, old, missing))
+        k = (id(obj), name)
+        _SEAMED[k] = _SEAMED.get(k, 0) + 1
         setattr(obj, name, value)
 
     def restore(self):
@@ -1067,7 +1070,153 @@ class Seams:
                 delattr(obj, name)
             else:
                 setattr(obj, name, old)
+            k = (id(obj), name)
+            _SEAMED[k] = _SEAMED.get(k, 1) - 1
+            if _SEAMED[k] <= 0:
+                del _SEAMED[k]
         self.saved = []
+
+
+_SEAMED = {}    # (id(holder), name) -> how many Seams rebind it right now
+
+
+# ---- module-level and class-level data of the library -----------------------
+# A library module may keep data in module globals or class attributes (a
+# cache, a registry, a counter).  That data belongs to the *process*: a real
+# process starts with the import-time value and no other process ever sees
+# it.  The explorer runs thousands of executions, and all simulated processes
+# of an execution, inside one Python process, so this ownership has to be
+# modelled: for every module registered with ``own_library_state``
+#   * the data is reset to its import-time value before every execution
+#     (``Run.start``, ``DirectRuntime.__enter__``, ``reset_library_state``),
+#     never inside one, so that no execution depends on the worker's history;
+#   * inside a ``Run`` every simulated process has its private copy, swapped
+#     in when the process gets the baton (a process made by
+#     ``restart_process`` starts from the import-time value again).
+# "Data" = attributes of the module and of the classes defined in it whose
+# value is a dict / list / set / bytearray / deque (restored in place, by
+# content), a number / str / bytes / tuple / frozenset / None (rebound), or
+# any other non-callable object without __get__ that can be deep-copied
+# (rebound to a copy); attributes that did not exist at import time are
+# removed.  Names currently rebound through ``Seams`` are left alone.
+class LibraryState:
+    CONTAINERS = (dict, list, set, bytearray)
+    SCALARS = (int, float, complex, str, bytes, type(None), tuple, frozenset)
+
+    def __init__(self, module):
+        import collections
+        import copy
+        import types
+        self._copy, self._deep = copy.copy, copy.deepcopy
+        self.CONTAINERS = LibraryState.CONTAINERS + (collections.deque,)
+        self._skip = (types.ModuleType, type, types.FunctionType,
+                      types.BuiltinFunctionType, types.MethodType,
+                      staticmethod, classmethod, property)
+        self.module = module
+        self.holders = [module] + [
+            v for v in vars(module).values()
+            if isinstance(v, type) and v.__module__ == module.__name__]
+        self.lens = [len(vars(h)) for h in self.holders]
+        self.orig, self.snap = {}, {}
+        for i, h in enumerate(self.holders):
+            for name, v in list(vars(h).items()):
+                if self._data(h, name, v):
+                    self.orig[i, name] = v
+                    self.snap[i, name] = self._deep(v)
+
+    def _data(self, holder, name, v):
+        if name.startswith("__") or (id(holder), name) in _SEAMED:
+            return False
+        if isinstance(v, self.CONTAINERS) or isinstance(v, self.SCALARS):
+            return True
+        if isinstance(v, self._skip) or callable(v) or hasattr(v, "__get__"):
+            return False
+        try:
+            self._deep(v)
+        except Exception:
+            return False
+        return True
+
+    def fresh(self):
+        """the import-time value (deep copies: nothing is shared between the
+        executions / processes that start from it)"""
+        return {k: self._deep(v) for k, v in self.snap.items()}
+
+    def save(self):
+        """what is installed right now (containers copied one level deep:
+        whatever is inside belongs to the process that put it there)"""
+        if not self.snap and all(len(vars(h)) == n for h, n in
+                                 zip(self.holders, self.lens)):
+            return {}
+        out = {}
+        for i, h in enumerate(self.holders):
+            for name, v in list(vars(h).items()):
+                if self._data(h, name, v):
+                    out[i, name] = self._copy(v) \
+                        if isinstance(v, self.CONTAINERS) else v
+        return out
+
+    def load(self, state):
+        for i, h in enumerate(self.holders):
+            for name, v in list(vars(h).items()):
+                if (i, name) not in state and self._data(h, name, v):
+                    delattr(h, name)
+        for (i, name), v in state.items():
+            h, o = self.holders[i], self.orig.get((i, name))
+            if o is not None and isinstance(o, self.CONTAINERS) \
+                    and type(o) is type(v):
+                # the import-time object keeps its identity (something may
+                # hold a reference to it), only its content is replaced
+                if isinstance(o, (dict, set)):
+                    o.clear()
+                    o.update(v)
+                else:
+                    del o[:]
+                    o.extend(v)
+                v = o
+            elif isinstance(v, self.CONTAINERS):
+                v = self._copy(v)
+            if vars(h).get(name, _MISSING) is not v:
+                setattr(h, name, v)
+
+
+_MISSING = object()
+_LIBS = []      # LibraryState of every registered module, registration order
+
+
+def own_library_state(module):
+    """register a library module (call it right after importing the module,
+    before anything used it: what it holds then is the import-time value)"""
+    for ls in _LIBS:
+        if ls.module is module:
+            return ls
+    _LIBS.append(LibraryState(module))
+    return _LIBS[-1]
+
+
+def owned_library_modules():
+    return [ls.module.__name__ for ls in _LIBS]
+
+
+def reset_library_state():
+    """import-time value of all registered modules' data; to be called
+    before an execution starts, never inside one"""
+    for ls in _LIBS:
+        if ls.snap or ls.save():
+            ls.load(ls.fresh())
+
+
+def _lib_save():
+    return [ls.save() for ls in _LIBS]
+
+
+def _lib_load(states):
+    for ls, st in zip(_LIBS, states):
+        ls.load(st)
+
+
+def _lib_fresh():
+    return [ls.fresh() for ls in _LIBS]
 
 
 def install_ebpfcat(seams, ebpfcat_mod=True, lock_mod=True):
@@ -1198,6 +1347,7 @@ class Proc:
         self.tried = {}
         self.outcome = None
         self.lock_fail = None   # (ino, s, e, mode) of a just-failed NB lockf
+        self.libstate = None    # its copy of the library's module/class data
 
 
 class Run:
@@ -1227,6 +1377,7 @@ class Run:
         self.script = []
         self.si = 0
         self.allow_crash = True
+        self._lib_owner = None   # whose library data is installed right now
 
     # ---- called on process threads -------------------------------------
     def pid(self):
@@ -1277,8 +1428,23 @@ class Run:
         self.cur = p.pid
         if p.abandon:
             raise Abandon()
+        self._own_lib(p)
         p.status = "running"
         p.pending = p.enabled = p.options = None
+
+    def _own_lib(self, p):
+        """p got the baton: the module-level / class-level data of the
+        registered library modules is p's own (see LibraryState)"""
+        cur = self._lib_owner
+        if cur is p or not _LIBS:
+            return
+        self._lib_owner = p
+        now = _lib_save()
+        if cur is not None:
+            cur.libstate = now
+        new = p.libstate if p.libstate is not None else _lib_fresh()
+        if any(now) or any(new):
+            _lib_load(new)
 
     def _record(self, p, name, args, result):
         ev = (name, _summ(args), result)
@@ -1350,6 +1516,10 @@ class Run:
                      lambda: self.world.exit_process(p.pid))
         p.tried.clear()
         p.flags.clear()
+        if _LIBS:               # a new process: import-time library data
+            self._lib_owner = None
+            p.libstate = None
+            self._own_lib(p)
 
     def flag(self, k, v):
         p = self.procs[self.pid()]
@@ -1370,6 +1540,7 @@ class Run:
         self.cur = p.pid
         try:
             try:
+                self._own_lib(p)
                 r = p.body(self)
                 p.outcome = ("ok", _summ(r))
             except (Abandon, SimBug):
@@ -1412,6 +1583,7 @@ class Run:
             raise core.Internal("another Run is still active")
         _RT = self
         self.started = True
+        reset_library_state()
         self._garbage = own_garbage().__enter__()
         for p in self.procs:
             p.thread = _get_host()
@@ -2043,6 +2215,62 @@ def _conf_scripts(root):
         (0, None, "lockf", ("$a", EX, 1, 0), {}),
         (0, None, "close", ("$a",), {}),
         (0, None, "rmtree", (R + "/l",), {}),
+    ]
+    # life cycle of a shared lock file: the last participant unlinks it and
+    # keeps its descriptor, participants come back.  An open descriptor keeps
+    # the unlinked inode (content, record locks) alive, a new file of the
+    # same name is another inode, record locks are per inode
+    CR = _os.O_CREAT | RW
+    s["unlink"] = [
+        (0, None, "makedirs", (R + "/u",), {}),
+        (0, "a", "os_open", (R + "/u/f", CR), {}),
+        (0, None, "ftruncate", ("$a", 8), {}),
+        (1, "b", "os_open", (R + "/u/f", CR), {}),
+        (0, None, "pwrite", ("$a", b"\3", 5), {}),
+        (0, None, "lockf", ("$a", EX | NB, 1, 5), {}),
+        (0, None, "remove", (R + "/u/f",), {}),
+        (0, None, "remove", (R + "/u/f",), {}),
+        (0, None, "listdir", (R + "/u",), {}),
+        (0, None, "fstat", ("$a",), {}),
+        (1, None, "pread", ("$b", 8, 0), {}),
+        (1, None, "lockf", ("$b", EX | NB, 1, 5), {}),
+        (1, None, "os_open", (R + "/u/f", RW), {}),
+        (1, "c", "os_open", (R + "/u/f", CR), {}),
+        (1, None, "fstat", ("$c",), {}),
+        (1, None, "ftruncate", ("$c", 8), {}),
+        (1, None, "pread", ("$c", 8, 0), {}),
+        (1, None, "lockf", ("$c", EX | NB, 1, 5), {}),
+        (1, None, "pwrite", ("$c", b"\1", 5), {}),
+        (0, None, "pread", ("$a", 8, 0), {}),
+        (1, None, "pwrite", ("$b", b"\7", 6), {}),
+        (0, None, "pread", ("$a", 8, 0), {}),
+        # the process that unlinked it joins again: the new inode
+        (0, "d", "os_open", (R + "/u/f", CR), {}),
+        (0, None, "pread", ("$d", 8, 0), {}),
+        (0, None, "lockf", ("$d", EX | NB, 1, 5), {}),
+        (0, None, "lockf", ("$d", EX | NB, 1, 4), {}),
+        (0, None, "lockf", ("$a", EX | NB, 1, 5), {}),
+        # closing the descriptor of the unlinked inode drops the locks on
+        # that inode only
+        (0, None, "close", ("$a",), {}),
+        (1, None, "lockf", ("$c", EX | NB, 1, 4), {}),
+        (1, None, "lockf", ("$b", EX | NB, 1, 5), {}),
+        (1, None, "lockf", ("$c", UN), {}),
+        (0, None, "lockf", ("$d", EX | NB, 1, 5), {}),
+        # unlinked a second time while both use it, and created again
+        (1, None, "remove", (R + "/u/f",), {}),
+        (1, None, "lockf", ("$c", EX | NB, 1, 5), {}),
+        (1, "e", "os_open", (R + "/u/f", CR), {}),
+        (1, None, "lockf", ("$e", EX | NB, 1, 5), {}),
+        (1, None, "pread", ("$e", 8, 0), {}),
+        (0, None, "close", ("$d",), {}),
+        (1, None, "lockf", ("$c", EX | NB, 1, 5), {}),
+        (1, None, "pread", ("$c", 8, 0), {}),
+        (1, None, "close", ("$b",), {}),
+        (1, None, "close", ("$c",), {}),
+        (1, None, "close", ("$e",), {}),
+        (0, None, "listdir", (R + "/u",), {}),
+        (0, None, "rmtree", (R + "/u",), {}),
     ]
     return s
 
